@@ -426,4 +426,201 @@ theorem buildEnvIL_noComments : ∀ (items : List Item) (env : Env),
   | .decl ty n rhs :: rest, env => by
       rw [noComments_decl, buildEnvIL_decl, buildEnvIL_decl, buildEnvIL_noComments rest, buildEnvIL_noComments rest]
 
+/-! ### Closedness of the inlined environment -/
+
+theorem lookup_mem : ∀ (env : Env) (y : String) (v : Term), env.lookup y = some v → (y, v) ∈ env
+  | [], _, _, h => by simp at h
+  | (k, w) :: env, y, v, h => by
+      simp only [List.lookup_cons] at h
+      split at h
+      · rename_i hk
+        simp only [beq_iff_eq] at hk
+        simp only [Option.some.injEq] at h
+        subst hk; subst h
+        exact List.mem_cons_self
+      · exact List.mem_cons_of_mem _ (lookup_mem env y v h)
+
+mutual
+/-- What a substituted term mentions: an unbound identifier of the term, or something a bound value mentions. -/
+theorem subst_mentions (env : Env) (x : String) : ∀ t : Term, (t.subst env).mentions x = true →
+    (t.mentions x = true ∧ env.lookup x = none) ∨ ∃ p ∈ env, p.2.mentions x = true
+  | .id y, h => by
+      simp only [Term.subst] at h
+      cases hl : env.lookup y with
+      | none =>
+        rw [hl] at h
+        simp only [Term.mentions, beq_iff_eq] at h
+        subst h
+        exact Or.inl ⟨by simp [Term.mentions], hl⟩
+      | some v =>
+        rw [hl] at h
+        exact Or.inr ⟨(y, v), lookup_mem env y v hl, h⟩
+  | .app f args, h => by
+      simp only [Term.subst, Term.mentions] at h ⊢
+      exact substList_mentions env x args h
+  | .addr t, h => by
+      simp only [Term.subst, Term.mentions] at h ⊢
+      exact subst_mentions env x t h
+  | .ccast _ t, h => by
+      simp only [Term.subst, Term.mentions] at h ⊢
+      exact subst_mentions env x t h
+  | .arrow t _, h => by
+      simp only [Term.subst, Term.mentions] at h ⊢
+      exact subst_mentions env x t h
+  | .num _, h => by simp [Term.subst, Term.mentions] at h
+  | .flt _, h => by simp [Term.subst, Term.mentions] at h
+  | .chr _, h => by simp [Term.subst, Term.mentions] at h
+  | .str _, h => by simp [Term.subst, Term.mentions] at h
+theorem substList_mentions (env : Env) (x : String) : ∀ ts : List Term, mentionsList x (substList env ts) = true →
+    (mentionsList x ts = true ∧ env.lookup x = none) ∨ ∃ p ∈ env, p.2.mentions x = true
+  | [], h => by simp [substList, mentionsList] at h
+  | t :: ts, h => by
+      simp only [substList, mentionsList, Bool.or_eq_true] at h ⊢
+      rcases h with h | h
+      · rcases subst_mentions env x t h with ⟨a, b⟩ | r
+        · exact Or.inl ⟨Or.inl a, b⟩
+        · exact Or.inr r
+      · rcases substList_mentions env x ts h with ⟨a, b⟩ | r
+        · exact Or.inl ⟨Or.inr a, b⟩
+        · exact Or.inr r
+end
+
+theorem eraseDup_app_cases (f : String) (args : List Term) :
+    (∃ a, args = [a] ∧ (Term.app f args).eraseDup = a.eraseDup) ∨
+    (Term.app f args).eraseDup = .app f (eraseDupList args) := by
+  by_cases h : ∃ a, f = "DUP" ∧ args = [a]
+  · obtain ⟨a, hf, ha⟩ := h
+    subst hf; subst ha
+    exact Or.inl ⟨a, rfl, by rw [Term.eraseDup]⟩
+  · refine Or.inr ?_
+    rw [Term.eraseDup]
+    intro t hf ha
+    exact h ⟨t, hf, ha⟩
+
+mutual
+/-- Erasing `DUP` introduces no identifier. -/
+theorem eraseDup_mentions (x : String) : ∀ t : Term, t.eraseDup.mentions x = true → t.mentions x = true
+  | .app f args, h => by
+      simp only [Term.mentions]
+      apply eraseDupList_mentions x args
+      rcases eraseDup_app_cases f args with ⟨a, ha, he⟩ | he
+      · rw [he] at h
+        rw [ha]
+        simp [eraseDupList, mentionsList, h]
+      · rw [he] at h
+        simpa only [Term.mentions] using h
+  | .addr t, h => by
+      simp only [Term.eraseDup, Term.mentions] at h ⊢
+      exact eraseDup_mentions x t h
+  | .ccast _ t, h => by
+      simp only [Term.eraseDup, Term.mentions] at h ⊢
+      exact eraseDup_mentions x t h
+  | .arrow t _, h => by
+      simp only [Term.eraseDup, Term.mentions] at h ⊢
+      exact eraseDup_mentions x t h
+  | .id _, h => by simpa [Term.eraseDup] using h
+  | .num _, h => by simpa [Term.eraseDup] using h
+  | .flt _, h => by simpa [Term.eraseDup] using h
+  | .chr _, h => by simpa [Term.eraseDup] using h
+  | .str _, h => by simpa [Term.eraseDup] using h
+theorem eraseDupList_mentions (x : String) : ∀ ts : List Term, mentionsList x (eraseDupList ts) = true →
+    mentionsList x ts = true
+  | [], h => by simp [eraseDupList, mentionsList] at h
+  | t :: ts, h => by
+      simp only [eraseDupList, mentionsList, Bool.or_eq_true] at h ⊢
+      rcases h with h | h
+      · exact Or.inl (eraseDup_mentions x t h)
+      · exact Or.inr (eraseDupList_mentions x ts h)
+end
+
+/-- Every value of the environment mentions neither a bound name nor a name in `later`. -/
+def EnvClosed (env : Env) (later : List String) : Prop :=
+  ∀ p ∈ env, ∀ x, p.2.mentions x = true → x ∉ env.map Prod.fst ∧ x ∉ later
+
+theorem closed_aux (pre : List String) : ∀ (items : List Item) (D : List String) (env : Env),
+    WfFrom pre D items → constFree items = true → EnvClosed env (ilNames items) →
+    EnvClosed (buildEnvIL items env) []
+  | [], _, _, h, _, _ => by simp [WfFrom] at h
+  | .comment _ :: _, _, _, h, _, _ => by simp [WfFrom] at h
+  | .ret _ :: rest, D, env, h, _, hE => by
+      simp only [WfFrom] at h
+      rw [h.1]
+      intro p hp x hx
+      exact ⟨(hE p hp x hx).1, by simp⟩
+  | .decl ty n rhs :: rest, D, env, h, hc, hE => by
+      simp only [WfFrom] at h
+      obtain ⟨hD, hpre, huse, hrest⟩ := h
+      have hcr := constFree_tail _ _ hc
+      have hcn : isPluginConst n = false := constFree_mem _ hc n (by simp [declNames])
+      rw [buildEnvIL_decl]
+      by_cases hil : isILTy ty = true
+      · rw [if_pos hil]
+        apply closed_aux pre rest (n :: D) _ hrest hcr
+        have hnames : ilNames (Item.decl ty n rhs :: rest) = n :: ilNames rest := by simp [ilNames, hil]
+        rw [hnames] at hE
+        intro p hp x hx
+        rcases List.mem_cons.1 hp with hp | hp
+        · subst hp
+          rcases subst_mentions env x rhs hx with ⟨hm, hl⟩ | ⟨q, hq, hqx⟩
+          · have hlater := wfFrom_rhs_later pre D n rhs rest hD hpre huse hrest hcn hcr x hm
+            have hdom : x ∉ env.map Prod.fst := by
+              intro hmem
+              obtain ⟨q, hq, hqx⟩ := List.mem_map.1 hmem
+              have := List.lookup_eq_none_iff.1 hl q hq
+              simp [hqx] at this
+            refine ⟨?_, fun hx' => hlater.2 (ilNames_sub_declNames rest x hx')⟩
+            simp only [List.map_cons, List.mem_cons, not_or]
+            exact ⟨hlater.1, hdom⟩
+          · have := hE q hq x hqx
+            simp only [List.mem_cons, not_or] at this
+            refine ⟨?_, this.2.2⟩
+            simp only [List.map_cons, List.mem_cons, not_or]
+            exact ⟨this.2.1, this.1⟩
+        · have := hE p hp x hx
+          simp only [List.mem_cons, not_or] at this
+          refine ⟨?_, this.2.2⟩
+          simp only [List.map_cons, List.mem_cons, not_or]
+          exact ⟨this.2.1, this.1⟩
+      · rw [if_neg hil]
+        apply closed_aux pre rest (n :: D) _ hrest hcr
+        have hnames : ilNames (Item.decl ty n rhs :: rest) = ilNames rest := by simp [ilNames, hil]
+        rw [hnames] at hE
+        exact hE
+
+theorem buildEnvIL_dom : ∀ (items : List Item) (env : Env) (x : String),
+    (x ∈ ilNames items ∨ x ∈ env.map Prod.fst) → x ∈ (buildEnvIL items env).map Prod.fst
+  | [], env, x, h => by
+      rcases h with h | h
+      · simp [ilNames] at h
+      · exact h
+  | .comment _ :: rest, env, x, h => buildEnvIL_dom rest env x h
+  | .ret _ :: rest, env, x, h => buildEnvIL_dom rest env x h
+  | .decl ty n rhs :: rest, env, x, h => by
+      rw [buildEnvIL_decl]
+      simp only [ilNames] at h
+      split
+      · rename_i hil
+        rw [if_pos hil] at h
+        apply buildEnvIL_dom rest
+        rcases h with h | h
+        · rcases List.mem_cons.1 h with h | h
+          · exact Or.inr (by simp [h])
+          · exact Or.inl h
+        · exact Or.inr (by simp only [List.map_cons, List.mem_cons]; exact Or.inr h)
+      · rename_i hil
+        rw [if_neg hil] at h
+        exact buildEnvIL_dom rest env x h
+
+/-- A closed environment closes every term it is substituted into. -/
+theorem subst_closed (env : Env) (hE : EnvClosed env []) (r : Term) (x : String) (hx : x ∈ env.map Prod.fst) :
+    (r.subst env).mentions x = false := by
+  cases hm : (r.subst env).mentions x with
+  | false => rfl
+  | true =>
+    rcases subst_mentions env x r hm with ⟨_, hl⟩ | ⟨q, hq, hqx⟩
+    · obtain ⟨q, hq, hqx⟩ := List.mem_map.1 hx
+      have := List.lookup_eq_none_iff.1 hl q hq
+      simp [hqx] at this
+    · exact absurd hx (hE q hq x hqx).1
+
 end Rzil
